@@ -431,7 +431,7 @@ class BuildObserver:
         if spec is None:
             return
         kind = spec["kind"]
-        if op in ("open-w", "open-a", "mkdir", "unlink", "rmdir", "rename", "write"):
+        if op in ("open-w", "open-a", "open-rw", "truncate", "mkdir", "unlink", "rmdir", "rename", "write"):
             ok = self.allowed_write(spec, path, w)
             if op == "mkdir" and not ok:
                 # creating a missing ancestor directory of an asked-for target is not an extra output
